@@ -269,16 +269,19 @@ def _span(ctx, rep, eng):
                     "/".join(sorted(set(states)))))
     f = cm.func("_ctparse")
     tparam = f.args.args[0].arg
-    ok = False
-    for c in calls_in(f):
-        # timeit(_match_regex)(txt, ...) or _match_regex(txt, ...)
-        inner = c.func
-        is_mr = (isinstance(inner, ast.Name) and inner.id == "_match_regex") or \
-            (isinstance(inner, ast.Call) and inner.args and norm(inner.args[0]) == "_match_regex")
-        if is_mr and c.args and norm(c.args[0]) == tparam:
-            ok = True
-    rep.add("span", cm.rel + "::_ctparse::matcher input", cm.where(f), ok,
-            "" if ok else "the matcher is not run on the text _ctparse was given")
+    # by provenance of the text parameter: the matcher's input is the given (normalised) text,
+    # possibly with the labels stripped -- whatever the local is called
+    T = st_.Terms(cm)
+    T.run(f.body, {tparam: ("text", "norm")})
+    mstates = [st_.text_state(ats[0]) for (name, ats, _node) in T.calls if name == "_match_regex" and ats]
+    c2_ = cm.rel + "::_ctparse::matcher input"
+    if not mstates or any(x == "?" for x in mstates):
+        rep.undecided("span", c2_, cm.where(f), "what text the matcher is run on is not recognised")
+    else:
+        ok = all(x in ("norm", "stripped") for x in mstates)
+        rep.add("span", c2_, cm.where(f), ok,
+                "" if ok else "the matcher is not run on the text _ctparse was given (it sees the {} text)".format(
+                    "/".join(sorted(set(mstates)))))
     # RegexMatch takes its span from the id group of the match
     tm = ctx.imod("ctparse.types")
     init = tm.func("RegexMatch.__init__")
